@@ -1,4 +1,5 @@
-// gendrv runs the working tree's v2 code generator on a manifest (fresh process per run: the
+// gendrv runs the working tree's v2 code generator on a manifest, preceded by the manifests of the libraries it
+// depends on (fresh process per run: the
 // generator's type registry is a process global).
 package main
 
@@ -10,21 +11,25 @@ import (
 )
 
 func main() {
-	if len(os.Args) != 3 {
-		fmt.Fprintln(os.Stderr, "usage: gendrv <manifest.json> <outdir>")
+	if len(os.Args) < 3 {
+		fmt.Fprintln(os.Stderr, "usage: gendrv [<dependency-manifest.json> ...] <manifest.json> <outdir>")
 		os.Exit(2)
 	}
-	data, err := os.ReadFile(os.Args[1])
-	if err != nil {
-		fmt.Fprintln(os.Stderr, err)
-		os.Exit(2)
+	var ms []*cmd.GoRestliManifest
+	for _, f := range os.Args[1 : len(os.Args)-1] {
+		data, err := os.ReadFile(f)
+		if err != nil {
+			fmt.Fprintln(os.Stderr, err)
+			os.Exit(2)
+		}
+		m, err := cmd.ReadManifest(data)
+		if err != nil {
+			fmt.Fprintln(os.Stderr, "GENERATOR-ERROR: cannot read manifest:", err)
+			os.Exit(3)
+		}
+		ms = append(ms, m)
 	}
-	m, err := cmd.ReadManifest(data)
-	if err != nil {
-		fmt.Fprintln(os.Stderr, "GENERATOR-ERROR: cannot read manifest:", err)
-		os.Exit(3)
-	}
-	if err := cmd.GenerateCode(os.Args[2], []*cmd.GoRestliManifest{m}, false); err != nil {
+	if err := cmd.GenerateCode(os.Args[len(os.Args)-1], ms, false); err != nil {
 		fmt.Fprintln(os.Stderr, "GENERATOR-ERROR:", err)
 		os.Exit(3)
 	}
